@@ -35,6 +35,16 @@ Theorem C06_format_constants_are_the_sources :
   (io_writes_tag = model_tagged /\ io_checks_tag = model_tagged).
 Proof. exact (conj tags_match (conj magic_match (conj footer_rule_match tagged_match))). Qed.
 
+(* ... and the ORDER of the pieces: the model writer of every layer emits exactly what the statements of that layer's
+   write_binary list (header, each configuration member, the backend, footer), in the source's order; every read_binary
+   reads the members in the order they were written and hands them to the constructor in the order it read them
+   (all layers and primitives except the array primitive, whose reader and writer contain loops) *)
+Theorem C06_write_order_is_the_source : forall l k g inner bs, dump_layer l k g inner = Some bs ->
+  bs = flat_map (item_bytes l k g inner) (lookup (layer_name l) io_write_seq).
+Proof. exact write_order_is_the_source. Qed.
+Theorem C06_read_order_is_write_order : forallb reads_match_writes seq_layers = true.
+Proof. exact read_order_is_write_order. Qed.
+
 (* non-vacuity: a five-layer stack with every kind of configuration *)
 Example C06_example :
   let s := ([LAffine; LLinear F32; LBackup; LClamp; LStrided 2 U64], PArray 1 F32) in
